@@ -98,3 +98,44 @@ func SortedKeys[K comparable, V any](m map[K]V) []K {
 	}
 	return out
 }
+
+// ZeroOf returns the zero value of a channel's element type (used by the
+// rewritten select statements to declare stash variables).
+func ZeroOf[T any](ch <-chan T) (z T) { return }
+
+// TryRecv is a non-blocking receive.
+func TryRecv[T any](ch <-chan T) (v T, ok bool, got bool) {
+	select {
+	case v, ok = <-ch:
+		return v, ok, true
+	default:
+		return v, false, false
+	}
+}
+
+// TrySend is a non-blocking send.
+func TrySend[T any](ch chan<- T, v T) bool {
+	select {
+	case ch <- v:
+		return true
+	default:
+		return false
+	}
+}
+
+// SelectOrder returns the order in which a rewritten select probes its n
+// communication cases: a tape-chosen rotation (0 = source order).
+func SelectOrder(site string, n int) []int {
+	start := 0
+	if s := Cur(); s != nil && n > 1 {
+		start = s.T.Choose("select", n)
+		if start != 0 {
+			s.Stat("select_rotated")
+		}
+	}
+	out := make([]int, n)
+	for i := range out {
+		out[i] = (start + i) % n
+	}
+	return out
+}
